@@ -12,6 +12,13 @@ class Holder(State):
     tag: int = 0
 
 
+class BareHolder(State):
+    """no class-level default behind the attribute: a lost value cannot hide behind one"""
+
+    value: Any | Missing
+    tag: int = 0
+
+
 class SeqHolder(State):
     items: Sequence[Any] = ()
     opt: int | Missing = MISSING
